@@ -124,6 +124,21 @@ def run(prop, mod, repo):
             with open(os.path.join(root, rel), 'w') as f:
                 f.write(new)
             jobs.append(('twin', desc, root, 0))
+        # bulk twins of the whole package (sa/selftest/bulk.py)
+        from sa.selftest import bulk
+        C_READERS = {'C05', 'C06', 'C07', 'C08', 'C10', 'C12', 'C13', 'C19', 'C20'}
+        for kind in bulk.KINDS:
+            if kind == 'crename' and prop not in C_READERS:
+                continue
+            root = os.path.join(base, 'bulk-%s' % kind)
+            _copy_tree(repo, root)
+            try:
+                bulk.apply(kind, root)
+            except Exception as e:
+                problems.append('bulk twin %s could not be built: %s' % (kind, e))
+                shutil.rmtree(root, ignore_errors=True)
+                continue
+            jobs.append(('twin', 'bulk: ' + kind, root, 0))
         def work(j):
             kind, name, root, want = j
             rc, out = _run_rule(prop, root)
